@@ -1431,6 +1431,7 @@ class _Ops:
             bad = self.classify(st1, r1, x, "update-after-grid_")
             if bad:
                 return bad
+            self.set_buf(x, "fresh")  # the probe itself updated the transform
             f1 = t.v if velocity else t.u
             after = sample_field(f1.detach(), where.expand(f1.shape[0], -1, -1), True)
             tol = 1e-4 * 2.0 / max(int(s) for s in new.size())
@@ -1683,15 +1684,27 @@ class _Ops:
         if isinstance(r, CompositeTransform):
             y = self.add_with_members(hid, r, x.comp, "inverse", smooth=x.smooth, member_buf="unknown")
         else:
-            fresh = ub and x.buf == "fresh" and cname(t) in VELOCITY
-            y = self.add(hid, r, x.comp, "inverse", buf="fresh" if fresh else "unknown", smooth=x.smooth)
+            vel = cname(t) in VELOCITY
+            # update_buffers=True refreshes the inverse's displacement from the (current) velocity buffer; the
+            # inverse of a transform without buffers has none to inherit and evaluates lazily
+            ybuf = "fresh" if (vel and ub and x.buf == "fresh") else ("cleared" if (vel and x.buf == "cleared") else "unknown")
+            y = self.add(hid, r, x.comp, "inverse", buf=ybuf, smooth=x.smooth)
             y.affine_params = False
-            if fresh:
+            if ybuf != "unknown":
                 self.fresh_changed = {id(y.obj)}
-                self.last_change[id(y.obj)] = "inverse(ub)"
+                self.last_change[id(y.obj)] = "inverse(ub)" if ub else "inverse"
         self.pairs.append(Pair(x.hid, y.hid, link, ub))
         self.hot = [y.hid, x.hid]
-        return StepResult("ok", "inverse")
+        out = StepResult("ok", "inverse")
+        if not isinstance(r, CompositeTransform) and y.buf in ("fresh", "cleared"):
+            # the inverse must be usable as it is handed out: its dense displacement is that of the inverse map
+            sub = self.op_disp({"h": y.hid, "which": "disp"})
+            stale = [v for v in sub.violations if v.cls == "stale-obs"]
+            out.violations.extend(sub.violations)
+            self.c["checks"]["inverse_disp_as_handed_out"] += 1
+            if stale:
+                out.violations.append(self.viol("C07", "inverse-buffers-stale", x, desc, {"ub": ub, "link": link, "forward_buffers": x.buf, "max_err": stale[0].detail.get("max_err")}))
+        return out
 
     def op_link_(self, op) -> StepResult:
         x = self.get(op["h"])
